@@ -38,7 +38,7 @@ func sessionEntries(p *Prog) []*ssa.Function {
 	pool := p.Global(p.Slog, "poolPrintCtx")
 	var out []*ssa.Function
 	for _, fn := range p.RepoFuncs() {
-		if strings.HasPrefix(fn.Name(), "init") {
+		if strings.HasPrefix(nm(fn), "init") {
 			continue
 		}
 		for _, cs := range callsIn(fn) {
@@ -96,7 +96,7 @@ func c09Pooled(c *Ctx, p *Prog, m *Model, rule string, modes []Mode) {
 		var stores []string
 		for _, fn := range p.RepoFuncs() {
 			for _, fs := range fieldStores(fn) {
-				if fs.Struct == "PrintCtx" && fs.Field == f && fn.Name() != "newPrintCtx" {
+				if fs.Struct == "PrintCtx" && fs.Field == f && nm(fn) != "newPrintCtx" {
 					stores = append(stores, shortName(fn))
 				}
 			}
@@ -131,7 +131,7 @@ func c09Pooled(c *Ctx, p *Prog, m *Model, rule string, modes []Mode) {
 	{
 		onPath := false
 		for fn := range tree {
-			if fn.Name() == "UnreadByte" || fn.Name() == "UnreadRune" {
+			if nm(fn) == "UnreadByte" || nm(fn) == "UnreadRune" {
 				onPath = true
 			}
 		}
@@ -230,7 +230,7 @@ func c09Pooled(c *Ctx, p *Prog, m *Model, rule string, modes []Mode) {
 						for _, ref := range *fa.Referrers() {
 							switch x := ref.(type) {
 							case ssa.CallInstruction:
-								if cal := calleeOf(x); cal != nil && cal.Name() == "Extract" {
+								if cal := calleeOf(x); cal != nil && nm(cal) == "Extract" {
 									extracts = append(extracts, x)
 								} else {
 									reads = append(reads, x)
@@ -357,7 +357,7 @@ func c09Globals(c *Ctx, p *Prog, m *Model) {
 		}
 		var probs []string
 		for _, gs := range globalStores(fn) {
-			probs = append(probs, fmt.Sprintf("stores to package variable %s (%s) at %s", gs.G.Name(), gs.Kind, p.Pos(instrPos(gs.Instr))))
+			probs = append(probs, fmt.Sprintf("stores to package variable %s (%s) at %s", nm(gs.G), gs.Kind, p.Pos(instrPos(gs.Instr))))
 		}
 		for _, cs := range callsIn(fn) {
 			args := cs.Common().Args
@@ -374,13 +374,13 @@ func c09Globals(c *Ctx, p *Prog, m *Model) {
 				name = cal.String()
 			}
 			switch {
-			case (g.Name() == "poolPrintCtx" || g.Name() == "poolAttrs") && (name == "(*sync.Pool).Get" || name == "(*sync.Pool).Put"):
-			case g.Name() == "fixedSize" && strings.HasPrefix(name, "sync/atomic."):
+			case (nm(g) == "poolPrintCtx" || nm(g) == "poolAttrs") && (name == "(*sync.Pool).Get" || name == "(*sync.Pool).Put"):
+			case nm(g) == "fixedSize" && strings.HasPrefix(name, "sync/atomic."):
 			default:
 				if g.Pkg == p.Slog || g.Pkg == p.Times || g.Pkg == p.Strs {
 					// a method call on a package-level object: may remember something across records
 					if cal != nil && cal.Signature.Recv() != nil {
-						probs = append(probs, fmt.Sprintf("calls %s on package-level object %s at %s", name, g.Name(), p.Pos(instrPos(cs))))
+						probs = append(probs, fmt.Sprintf("calls %s on package-level object %s at %s", name, nm(g), p.Pos(instrPos(cs))))
 					}
 				}
 			}
@@ -406,7 +406,7 @@ func c09Globals(c *Ctx, p *Prog, m *Model) {
 	pa := p.Global(p.Slog, "poolAttrs")
 	for _, fn := range fns {
 		for _, cs := range callsIn(fn) {
-			if cal := calleeOf(cs); cal != nil && cal.String() == "(*sync.Pool).Put" && cs.Common().Args[0] == ssa.Value(pa) && !strings.HasPrefix(fn.Name(), "init") {
+			if cal := calleeOf(cs); cal != nil && cal.String() == "(*sync.Pool).Put" && cs.Common().Args[0] == ssa.Value(pa) && !strings.HasPrefix(nm(fn), "init") {
 				v := strip(cs.Common().Args[1])
 				ok := false
 				for _, s := range sources(v) {
